@@ -14,7 +14,7 @@ EXPLANATION = ("Necessary shape conditions of exactly-once delivery, decided on 
                "itself and the setter is never invoked on a path that ends in Transient; (R01.4) every ChannelConsumer::consume returns exactly the container's dequeue "
                "answer, dequeuing once; (R01.6) in the full-sync ring the lock is the reservation: every payload write and every suspension point between "
                "leak_slot_internal and publish_leaked_internal happens with the lock held (typestate); (R01.5) the ring shape conditions of C02 (counter protocol shapes, exact fullness/emptiness guards judged against the *published* "
-               "tail, index agreement, complete full-sync critical sections) hold -- they are necessary for exactly-once delivery too.")
+               "tail, index agreement, complete full-sync critical sections) hold -- they are necessary for exactly-once delivery too. (R01.8) the Uni API (send / send_with / send_with_async) forwards its arguments to its channel and answers the channel's result unchanged.")
 ASSUMPTIONS = ["loss- and duplicate-freedom of AtomicMove's reserve->publish / reserve->release protocol under every interleaving needs schedule exploration and is not decided",
                "crossbeam-channel internals trusted"]
 
@@ -171,7 +171,11 @@ def check(ctx):
             ctx.ob("R01.2", f"{k}|both-verdicts-present", {"Ok", "Transient"} <= kinds, site, f"verdicts produced: {sorted(kinds)}", nontrivial=False)
             for (vb, variant, fields, ops) in vd:
                 S = [s for s in sw if body.dominates(s["b"], vb)]
-                R_ = lambda t: {t} | body.reach_from(t)
+                _rm = {}
+                def R_(t):
+                    # flag-aware reachability: an outcome parked in an Option / flag and unpacked later (`let Some(r) = f().map(..) else {..}`) keeps its edges apart
+                    if t not in _rm: _rm[t] = {t} | util.flag_paths(body, dg, t)
+                    return _rm[t]
                 if variant == "Ok":
                     # edge dominance: not reachable from the failure side of any outcome test on its path
                     ok = bool(S) and all(vb in R_(s["success"]) and vb not in R_(s["failure"]) for s in S)
@@ -187,6 +191,11 @@ def check(ctx):
                         if c.get("f") == "std::ops::FnOnce::call_once" and "setter" in show(dg.expr(c["args"][0])) and "report" not in show(dg.expr(c["args"][0])):
                             reach = vb in body.reach_from(b)
                             ctx.ob("R01.3", f"{k}|setter-not-invoked-when-rejected", not reach, body.loc(b), "no path runs the setter and then reports Transient")
+    # ------------------------------------------------------------------ R01.8 the Uni API is its channel's answer
+    import delegation
+    for fn in ("send", "send_with", "send_with_async"):
+        delegation.thin(ctx, "R01.8", "uni::uni::Uni as uni::uni::GenericUni::" + fn, fn, "the verdict and the handed-back input a caller sees are the channel's own")
+    ctx.floor("R01.8", 3)
     # ------------------------------------------------------------------ R01.4 consume = container's answer
     for name, path in R.UNI_CHANNELS.items():
         k = f"{path} as {R.T_CONS}::consume"
